@@ -254,8 +254,13 @@ type closureVal struct {
 }
 
 func (c *FnCtx) nilCheck(guard, ref, name string) {
-	if c.prof.NoNilChecks || strings.HasPrefix(ref, "sub!") {
+	if strings.HasPrefix(ref, "sub!") {
 		return // derived references of by-value fields: the base pointer was checked
+	}
+	if c.prof.NoNilChecks {
+		// a nil dereference ends the path (it is an obligation of the safety sweep, not of this profile)
+		c.assume(guard, fmt.Sprintf("(not (= %s 0))", ref))
+		return
 	}
 	c.oblige("nil", "nil@"+name, guard, fmt.Sprintf("(not (= %s 0))", ref), "nil dereference")
 }
